@@ -167,8 +167,12 @@ def _real_c09(case):
             if hourly:
                 g.simulate(TimestepType.HOURLY)
                 hp = np.array(g.hp_eft)
-                qh = -np.asarray(g.hourly_extraction_ground_loads, dtype=float)
+                nyears = max(1, math.ceil(months / 12))
+                qh = -np.asarray(list(g.hourly_extraction_ground_loads) * nyears, dtype=float)      # the year of loads repeats over the horizon
                 th = np.arange(1, len(qh) + 1, dtype=float)
+                if len(hp) != len(qh):
+                    bad.append(f"HOURLY over {months} months returns {len(hp)} temperatures, the horizon has {len(qh)} hours")
+                    return {"bad": bad, "stats": stats}
                 # reference on a sample of steps (each step is O(n)): first 200, every 97th, last 50
                 gf, _ = g.grab_g_function(g.B_spacing / g.bhe.b.H)
                 idx = sorted(set(list(range(0, 200)) + list(range(0, len(qh), 97)) + list(range(len(qh) - 50, len(qh)))))
@@ -223,7 +227,7 @@ def run_c09() -> int:
     chk.evaluations += len(items)
     chk.nontrivial = {(tuple(i["q"]), tuple(i["t"]), i["tab"]) for i in items}
     chk.sample({"loads": items[-1]["q"], "times": items[-1]["t"], "table": items[-1]["tab"], "dev_times_den": items[-1]["dev"], "den": items[-1]["den"]})
-    cases = [(1, 1, 96.0, 2.0, "single", 12, True), (2, 2, 61.0, 2.6, "single", 25, False), (3, 4, 134.0, 1.4, "double", 12, False), (2, 5, 80.0, 3.2, "single", 12, False)]
+    cases = [(1, 1, 96.0, 2.0, "single", 12, True), (1, 2, 88.0, 2.2, "single", 24, True), (2, 2, 61.0, 2.6, "single", 25, False), (3, 4, 134.0, 1.4, "double", 12, False), (2, 5, 80.0, 3.2, "single", 12, False)]
     if t == "thorough":
         cases += [(n1, n2, H, k, p, m, hr) for (n1, n2) in ((1, 2), (4, 5), (6, 10), (10, 12), (20, 20)) for (H, k, p, m, hr) in ((70.0, 1.8, "single", 12, False), (125.0, 2.4, "double", 37, False))]
         cases += [(2, 3, 100.0, 2.0, "double", 12, True)]
@@ -301,9 +305,11 @@ def _gfunction_cases(seed):
         for ncurves in (1, 2, 3, 4, 5):
             hs = sorted(rnd.sample([60.0, 75.5, 90.0, 110.25, 135.0, 150.0], ncurves))
             curves = {h: [rnd.uniform(1, 3) + 0.9 * (lt + 9) + 0.01 * h for lt in logt] for h in hs}
+            order = list(hs)
+            rnd.shuffle(order)          # the family may have been stored in any order (deepest first, shuffled, ...)
 
             def fresh():
-                return GFunction(b=5.0, d=2.0, r_b_values={h: 0.075 for h in hs}, g_lts={h: list(curves[h]) for h in hs}, log_time=list(logt), bore_locations=[(0, 0), (5, 0)])
+                return GFunction(b=5.0, d=2.0, r_b_values={h: 0.075 for h in order}, g_lts={h: list(curves[h]) for h in order}, log_time=list(logt), bore_locations=[(0, 0), (5, 0)])
 
             for h in hs:
                 gf = fresh()
@@ -472,7 +478,9 @@ def _ginterp_case(item):
     hs = [60.0, 75.0, 97.5, 120.0, 150.0][:n]
     logt = [-8.5, -5.0, -1.0, 2.0]
     curves = {h: [1.0 + 0.7 * (lt + 9) + 0.013 * h + 0.00004 * h * h for lt in logt] for h in hs}
-    gf = GFunction(b=5.0, d=2.0, r_b_values={h: 0.075 for h in hs}, g_lts={h: list(curves[h]) for h in hs}, log_time=list(logt), bore_locations=[(0, 0), (5, 0)])
+    order = list(hs)
+    random.Random(n * 7 + len(qs)).shuffle(order)      # stored in an arbitrary order
+    gf = GFunction(b=5.0, d=2.0, r_b_values={h: 0.075 for h in order}, g_lts={h: list(curves[h]) for h in order}, log_time=list(logt), bore_locations=[(0, 0), (5, 0)])
     hq = {"min": hs[0], "max": hs[-1], "mid_stored": hs[len(hs) // 2], "inside": (hs[0] + hs[min(1, len(hs) - 1)]) / 2 + 1.3, "below_snap": hs[0] - 5e-7, "above_snap": hs[-1] + 5e-7,
           "below_tol": hs[0] - 5e-4, "below_far": hs[0] - 7.0, "above_far": hs[-1] + 9.0}
     nearest = {"min": hs[0], "max": hs[-1], "mid_stored": hs[len(hs) // 2], "below_snap": hs[0], "above_snap": hs[-1]}
